@@ -116,7 +116,7 @@ PROPS = {
     "C01": dict(
         module="YkProps.C01",
         leancheck=["YkModel.Node", "YkProofs.Node", "YkProps.C01"],
-        runs=[dict(comp="node", quick=3200, thorough=100000), dict(comp="core", quick=240, thorough=6000)],
+        runs=[dict(comp="node", quick=3200, thorough=100000), dict(comp="core", quick=300, thorough=6000, extra=["-mode", "mixed"])],
         classify=cls_both("C01"),
         nontrivial=lambda line: '"op":"reset"' not in line and '"op":"setSchedulable"' not in line,
         rule="node: random histories (<=50 ops) of every public ledger operation of objects.Node — TryAddAllocation, AddAllocation (forced, foreign and not), RemoveAllocation, UpdateForeignAllocation, "
@@ -136,7 +136,7 @@ PROPS = {
     "C02": dict(
         module="YkProps.C02",
         leancheck=["YkModel.Queue", "YkProofs.Queue", "YkProps.C02"],
-        runs=[dict(comp="queue", quick=2400, thorough=64000), dict(comp="core", quick=240, thorough=6000)],
+        runs=[dict(comp="queue", quick=2400, thorough=64000), dict(comp="core", quick=300, thorough=6000, extra=["-mode", "mixed"])],
         classify=cls_both("C02"),
         nontrivial=lambda line: '"op":"reset"' not in line,
         rule="queue: random queue trees (2..8 queues, chains and fans, sparse max/guaranteed with undefined/0/positive entries per type, maxApplications) built with NewConfiguredQueue; <=48 ops per tree: TryIncAllocatedResource, IncAllocatedResource (forced), DecAllocatedResource, SetResources, SetMaxResource(root), canRunApp / incRunningApps / decRunningApps / setAllocatingAccepted (hooks), SetMaxRunningApps; after every op the whole tree (allocated, raw max, guaranteed, headroom, max headroom, effective max, counters) is dumped, compared with the model and the property clauses are evaluated on the dump. non-trivial = not a reset line; distinct = distinct protocol lines",
@@ -153,7 +153,7 @@ PROPS = {
     "C11": dict(
         module="YkProps.C11",
         leancheck=["YkModel.Queue", "YkProofs.Queue", "YkProps.C11", "YkProps.C10"],
-        runs=[dict(comp="queue", quick=2400, thorough=64000), dict(comp="core", quick=240, thorough=6000)],
+        runs=[dict(comp="queue", quick=2400, thorough=64000), dict(comp="core", quick=300, thorough=6000, extra=["-mode", "mixed"])],
         classify=cls_both("C11"),
         nontrivial=lambda line: '"op":"reset"' not in line,
         rule="queue: random queue trees (2..8 queues, chains and fans, sparse max/guaranteed with undefined/0/positive entries per type, maxApplications) built with NewConfiguredQueue; <=48 ops per tree: TryIncAllocatedResource, IncAllocatedResource (forced), DecAllocatedResource, SetResources, SetMaxResource(root), canRunApp / incRunningApps / decRunningApps / setAllocatingAccepted (hooks), SetMaxRunningApps; after every op the whole tree (allocated, raw max, guaranteed, headroom, max headroom, effective max, counters) is dumped, compared with the model and the property clauses are evaluated on the dump. non-trivial = not a reset line; distinct = distinct protocol lines",
@@ -169,7 +169,7 @@ PROPS = {
     "C10": dict(
         module="YkProps.C10",
         leancheck=["YkModel.AppFsm", "YkProps.C10"],
-        runs=[dict(comp="core", quick=240, thorough=6000)],
+        runs=[dict(comp="core", quick=300, thorough=6000, extra=["-mode", "mixed"])],
         classify=cls_both("C10"),
         nontrivial=lambda line: '"op":"reset"' not in line,
         rule="the transition table and callback bodies are regenerated from application_state.go (T2) and the theorems re-checked; application-level histories are exercised by the full-stack check",
@@ -184,7 +184,7 @@ PROPS = {
     "C03": dict(
         module="YkProps.C03",
         leancheck=['YkModel.CoreState', 'YkModel.CoreOps', 'YkProofs.Core', 'YkProps.C03'],
-        runs=[dict(comp="core", quick=240, thorough=6000)],
+        runs=[dict(comp="core", quick=300, thorough=6000, extra=["-mode", "mixed"])],
         classify=cls_tagged("C03"),
         nontrivial=lambda line: '"op":"reset"' not in line,
         rule='core: random histories (30..120 operations) on a real ClusterContext driven synchronously through hooks: node create/create-drain/update/drain/undrain/decommission, application add (plain and gang, several users, static and dynamic queues, duplicate ids) / remove, asks (plain, placeholder, task groups, required node, priorities), RM-placed allocations, in-place resizes, foreign allocations add/update/remove, releases by key and of whole applications, scheduling cycles (predicate plugin denying some (ask,node) pairs, reservation delay 0, preemption on), placeholder and state timers fired explicitly, shim confirmations (PLACEHOLDER_REPLACED / TIMEOUT / PREEMPTED) delivered immediately, late, twice or never; 60% of the histories end by releasing and removing everything (drain). After every operation the complete state (nodes, queues, applications with asks/allocations, counters, user/group trackers) and the messages sent to the shim are dumped; the driver evaluates every clause on the dump, the per-step clauses against the previous dump, the shim protocol automaton on the messages, and steps the Core model from the previous dump for the modelled operations. non-trivial = not a reset line; distinct = distinct protocol lines',
@@ -198,7 +198,7 @@ PROPS = {
     "C04": dict(
         module="YkProps.C04",
         leancheck=['YkModel.Shim', 'YkProofs.Shim', 'YkProps.C04'],
-        runs=[dict(comp="core", quick=240, thorough=6000)],
+        runs=[dict(comp="core", quick=300, thorough=6000, extra=["-mode", "mixed"])],
         classify=cls_tagged("C04"),
         nontrivial=lambda line: '"op":"reset"' not in line,
         rule='core: random histories (30..120 operations) on a real ClusterContext driven synchronously through hooks: node create/create-drain/update/drain/undrain/decommission, application add (plain and gang, several users, static and dynamic queues, duplicate ids) / remove, asks (plain, placeholder, task groups, required node, priorities), RM-placed allocations, in-place resizes, foreign allocations add/update/remove, releases by key and of whole applications, scheduling cycles (predicate plugin denying some (ask,node) pairs, reservation delay 0, preemption on), placeholder and state timers fired explicitly, shim confirmations (PLACEHOLDER_REPLACED / TIMEOUT / PREEMPTED) delivered immediately, late, twice or never; 60% of the histories end by releasing and removing everything (drain). After every operation the complete state (nodes, queues, applications with asks/allocations, counters, user/group trackers) and the messages sent to the shim are dumped; the driver evaluates every clause on the dump, the per-step clauses against the previous dump, the shim protocol automaton on the messages, and steps the Core model from the previous dump for the modelled operations. non-trivial = not a reset line; distinct = distinct protocol lines',
@@ -212,7 +212,7 @@ PROPS = {
     "C06": dict(
         module="YkProps.C06",
         leancheck=['YkModel.Reserve', 'YkProofs.Reserve', 'YkProps.C06'],
-        runs=[dict(comp="core", quick=240, thorough=6000)],
+        runs=[dict(comp="core", quick=300, thorough=6000, extra=["-mode", "mixed"])],
         classify=cls_tagged("C06"),
         nontrivial=lambda line: '"op":"reset"' not in line,
         rule='core: random histories (30..120 operations) on a real ClusterContext driven synchronously through hooks: node create/create-drain/update/drain/undrain/decommission, application add (plain and gang, several users, static and dynamic queues, duplicate ids) / remove, asks (plain, placeholder, task groups, required node, priorities), RM-placed allocations, in-place resizes, foreign allocations add/update/remove, releases by key and of whole applications, scheduling cycles (predicate plugin denying some (ask,node) pairs, reservation delay 0, preemption on), placeholder and state timers fired explicitly, shim confirmations (PLACEHOLDER_REPLACED / TIMEOUT / PREEMPTED) delivered immediately, late, twice or never; 60% of the histories end by releasing and removing everything (drain). After every operation the complete state (nodes, queues, applications with asks/allocations, counters, user/group trackers) and the messages sent to the shim are dumped; the driver evaluates every clause on the dump, the per-step clauses against the previous dump, the shim protocol automaton on the messages, and steps the Core model from the previous dump for the modelled operations. non-trivial = not a reset line; distinct = distinct protocol lines',
@@ -226,7 +226,7 @@ PROPS = {
     "C09": dict(
         module="YkProps.C09",
         leancheck=['YkModel.Reserve', 'YkProofs.Reserve', 'YkProps.C09'],
-        runs=[dict(comp="core", quick=240, thorough=6000)],
+        runs=[dict(comp="core", quick=300, thorough=6000, extra=["-mode", "mixed"])],
         classify=cls_tagged("C09"),
         nontrivial=lambda line: '"op":"reset"' not in line,
         rule='core: random histories (30..120 operations) on a real ClusterContext driven synchronously through hooks: node create/create-drain/update/drain/undrain/decommission, application add (plain and gang, several users, static and dynamic queues, duplicate ids) / remove, asks (plain, placeholder, task groups, required node, priorities), RM-placed allocations, in-place resizes, foreign allocations add/update/remove, releases by key and of whole applications, scheduling cycles (predicate plugin denying some (ask,node) pairs, reservation delay 0, preemption on), placeholder and state timers fired explicitly, shim confirmations (PLACEHOLDER_REPLACED / TIMEOUT / PREEMPTED) delivered immediately, late, twice or never; 60% of the histories end by releasing and removing everything (drain). After every operation the complete state (nodes, queues, applications with asks/allocations, counters, user/group trackers) and the messages sent to the shim are dumped; the driver evaluates every clause on the dump, the per-step clauses against the previous dump, the shim protocol automaton on the messages, and steps the Core model from the previous dump for the modelled operations. non-trivial = not a reset line; distinct = distinct protocol lines',
